@@ -5,6 +5,10 @@
 # A semantic failure in a function that carries one of these obligation ids is a violation of the property;
 # failures in other functions of the unit belong to other properties and are only noted.
 
+import json as _json
+import os as _os
+_QS = _json.load(open(_os.path.join(_os.path.dirname(_os.path.abspath(__file__)), "kani", "quick_sets.json")))
+
 PROPS = {
     "C09": {
         "title": "The receiver's account of which bytes it holds is exact",
@@ -42,9 +46,9 @@ PROPS.update({
         "level_note": VERUS_NOTE + "finalize_receive, is_file_transfer, send_indication are stubs (bodies not verified).",
     },
     "C05": {
-        "disabled": True,     # until the quick tier is cut down to a few minutes
         "title": "Every well-formed PDU survives encode then decode unchanged",
         "kani": ["c05_fixed", "c05_header", "c05_var", "c05_userops", "c05_report", "c05_wrap"],
+        "kani_quick": _QS["C05"],      # harnesses measured reliable and fast (kani/quick_sets.json); thorough = all families
         "level": "other",
         "technique": "Kani/CBMC proof harnesses over the real codec, one per concrete shape, value fields fully symbolic",
         "design_ref": "DESIGN.md 4/C05, kani/README.md",
@@ -59,8 +63,12 @@ PROPS.update({
                       "Bounded families are labelled bounded in the evidence and are not counted as proofs for all lengths.",
     },
     "C06": {
-        "disabled": True,
         "title": "Decoding arbitrary bytes never panics and what it accepts is canonical",
+        "kani_quick": _QS["C06"],
+        "native": [{"prog": "decode_bounded", "quick": ["search", "quick"], "thorough": ["search", "thorough"], "obligation": "O-C06-decode-bounded",
+                    "fn": "PDU::decode", "file": "cfdp-core/src/pdu.rs",
+                    "bound": "all 2^16 header length fields x first octets x fourth-octet grid; 256 id length octets; 176-PDU corpus x truncations x single-octet mutations; 200k per-type decoder inputs"}],
+        "kani_timeout": 600,
         "kani": ["c06_arith", "c06_types", "c06_canon_eof", "c06_bytes_eof", "c06_canon_nak", "c06_bytes_nak", "c06_canon_filedata", "c06_bytes_filedata",
                  "c06_canon_small", "c06_dispatch", "c06_canon_finished", "c06_bytes_finished", "c06_canon_metadata", "c06_bytes_metadata"],
         "level": "other",
